@@ -12,7 +12,7 @@ use serde_json::{json, Value};
 pub fn run_case(ctx: &mut Ctx, case: &Value) {
     crate::real::set_current(case);
     ctx.report.evaluations += 1;
-    let ic = match issue_ref(ctx, case) {
+    let ic = match issue_any(ctx, case) {
         Some(ic) => ic,
         None => return,
     };
@@ -29,22 +29,34 @@ pub fn run_case(ctx: &mut Ctx, case: &Value) {
     let hv = real::holder_verify(&ic.token, &dec, &validation);
     let mut expected_claims = ic.spec["plain"].clone();
     if let Some(c) = ic.payload.get("cnf") { expected_claims["cnf"] = c.clone(); }
+    // one path per disclosure. Which pointer: the statement of C08 does not say; with decoy placeholders in an
+    // array the node's position in the signed payload (what this crate reports) and its position in the claims
+    // differ, and either is accepted here - the pointer in the payload is what the model reports, so the
+    // other one still shows as a difference from the model
+    let claims_ptr: std::collections::HashMap<usize, String> = ic.marks.iter().map(|m| (m.id, m.path.clone())).collect();
+    let reported: std::collections::HashMap<String, String> = match &hv { Out::Ok((_, _, ps)) => ps.iter().map(|p| (p.disc.clone(), p.path.clone())).collect(), _ => Default::default() };
     let expected_paths: Vec<Value> = ic.spec["discs"].as_array().cloned().unwrap_or_default().iter()
-        .map(|d| json!([d["path"], d["str"], d["key"], d["value"]])).collect();
+        .map(|d| {
+            let alt = d["id"].as_u64().and_then(|id| claims_ptr.get(&(id as usize))).cloned();
+            let got = d["str"].as_str().and_then(|s| reported.get(s)).cloned();
+            let path = match (alt, got) { (Some(a), Some(g)) if a == g => json!(a), _ => d["path"].clone() };
+            json!([path, d["str"], d["key"], d["value"]])
+        }).collect();
     let real_out = hv.clone().map(|(_, c, ps)| (c, Some(real_paths_json(&ps))));
     let cmp = Compare { prop: "C08", entry: "Holder::verify", case };
     compare_restoration(ctx, &cmp, &ic.sd_alg, &ic.payload, &ic.discs, &real_out, Some(&expected_claims), Some(&expected_paths), true);
     ctx.report.bump(&format!("holder:{}", hv.class()));
     // (2) presentations this library's holder derives verify, here and under the reference verifier
     let mut rng = Rng::fork(ctx.seed ^ 0xC08, crate::report::hash_of(&case["tree"]));
-    let sets = gen_redactions(&mut rng, &ic);
+    let sets = gen_redactions(&mut rng, &ic, false);
     let sets: Vec<Vec<String>> = sets.into_iter().take(4).collect();
     let kept: Vec<Vec<usize>> = sets.iter().map(|r| kept_ids(&ic, r)).collect();
     let expected = projects(ctx, &ic, &kept);
     let kbkey = holder_kb_key();
     let aud = "aud-1";
-    let kbp = KbParams { aud, key: &kbkey, alg: Algorithm::PS256 };
-    let policy = kb_policy(aud, Algorithm::PS256);
+    // (the algorithm the bound JWK itself names; other algorithms are C05's and C09's subject)
+    let kbp = KbParams { aud, key: &kbkey, alg: Algorithm::RS256 };
+    let policy = kb_policy(aud, Algorithm::RS256);
     for (i, r) in sets.iter().enumerate() {
         let mut c2 = case.clone();
         c2["redactions"] = json!([r]);
